@@ -269,12 +269,21 @@ def _native_roundtrips(tier="quick", seed=0):
         for i in range(k):
             for v in (0.0, 0.5, -0.25, 1.0):
                 sh2 = slide.shapes.add_shape(m, Emu(0), Emu(0), Emu(100), Emu(100))
+                kind_before, prst_before = sh2.auto_shape_type, sh2._element.spPr.prstGeom.get("prst")
                 sh2.adjustments[i] = v
                 got = [sh2.adjustments[j] for j in range(k)]
                 want = list(fresh)
                 want[i] = v
                 if any(abs(a - b) > 1e-5 for a, b in zip(got, want)):
                     bad = bad or "%s: adjustments[%d] = %r gives %r, expected %r" % (m.name, i, v, got, want)
+                # writing the guides leaves the preset itself alone
+                try:
+                    kind_after = sh2.auto_shape_type
+                except Exception as e:
+                    kind_after = repr(e)
+                if kind_after is not kind_before or sh2._element.spPr.prstGeom.get("prst") != prst_before:
+                    bad = bad or "%s: after adjustments[%d] = %r the shape reports auto_shape_type %s, prst=%r (before: %s, %r)" % (
+                        m.name, i, v, kind_after, sh2._element.spPr.prstGeom.get("prst"), kind_before, prst_before)
                 sh2._element.getparent().remove(sh2._element)
         sh._element.getparent().remove(sh._element)
     nm = "C20.native.explicit_adjustment_replaces_the_default_of_that_adjustment_only"
@@ -548,3 +557,82 @@ def _make_guides(k, g):
 for _k in (1, 2, 3):
     for _g in (0, 1, 2, 3):
         _make_guides(_k, _g)
+
+
+# ---------------------------------------------------------------------------------------------------------
+# plot grouping: the value the inspector keys on is the written one, else the default the schema declares for that plot's c:grouping
+
+
+def _replay_grouping(model, rec):
+    from pptx import Presentation
+    from pptx.chart.data import CategoryChartData
+    from pptx.enum.chart import XL_CHART_TYPE as X
+    from pptx.util import Emu
+
+    prs = Presentation()
+    sl = prs.slides.add_slide(prs.slide_layouts[6])
+    cd = CategoryChartData()
+    cd.categories = ["a", "b"]
+    cd.add_series("s", (1, 2))
+    for t in (X.BAR_CLUSTERED, X.COLUMN_CLUSTERED, X.LINE, X.AREA):
+        try:
+            ch = sl.shapes.add_chart(t, Emu(0), Emu(0), Emu(100), Emu(100), cd).chart
+        except NotImplementedError:
+            continue
+        for how in ("c:grouping without val", "no c:grouping"):
+            for g in ch.part._element.xpath(".//c:grouping"):
+                if how.startswith("c:grouping"):
+                    g.attrib.pop("val", None)
+                else:
+                    g.getparent().remove(g)
+            try:
+                got = ch.chart_type
+            except Exception as e:
+                got = repr(e)
+            if got != t:
+                return {"confirmed": True, "witness_class": "chart-type-readback", "detail": "%s written with %s (the schema default applies): chart_type reads %s" % (t.name, how, got)}
+    return {"confirmed": False, "detail": "chart types read back with the grouping left to the schema default"}
+
+
+def _make_grouping(tag):
+    @contract("C20", "C20.oxml.chart.plot.grouping_val[%s]" % tag, replay=_replay_grouping)
+    def body(c):
+        """grouping_val of a plot element = c:grouping/@val when written, else the default the XSD declares for @val of that plot's c:grouping
+        (CT_Grouping: standard; CT_BarGrouping: clustered)."""
+        import z3
+
+        from pptx.oxml import parse_xml  # noqa: F401  (registers element classes)
+        from pptx.oxml.ns import _nsmap
+        from pyvc import decls, xsd
+        from pyvc.engine import Atom, SObj, SStr
+
+        cls = decls.registry().get(tag)
+        S = xsd.load()
+        ns = _nsmap["c"]
+        g = S.elements[(ns, "chartSpace")]
+        cs = S.complex_type(S.qname(g, g.get("type")))
+        pa = S.complex_type(S.complex_type(cs.child_type("c:chart")).child_type("c:plotArea"))
+        gt = S.complex_type(S.complex_type(pa.child_type(tag)).child_type("c:grouping"))
+        default = gt.attrs["val"].default
+        c.ensures("oracle.schema_declares_a_default", default is not None)
+        state = c.int("state")
+        c.requires(z3.And(state >= 0, state <= 2))
+        written = SStr([Atom("val", zs=z3.String("val"))])
+        if c.branch(state == 0):
+            grouping, want = None, default
+        elif c.branch(state == 1):
+            grouping, want = SObj(None, "grouping", val=None), default
+        else:
+            grouping, want = SObj(None, "grouping", val=written), written
+        plot = SObj(cls, "plot", grouping=grouping)
+        out = c.getattr(plot, "grouping_val")
+        if out.raised:
+            c.fails("never_raises", "raised %s" % out.exc)
+            return
+        c.ensures("post.written_value_else_schema_default", out.value is want or out.value == want)
+
+    return body
+
+
+for _tag in ("c:barChart", "c:lineChart", "c:areaChart", "c:area3DChart"):  # the plot elements with c:grouping that have an element class
+    _make_grouping(_tag)
